@@ -10,7 +10,7 @@ copied into the generated file).  Anything outside the subset raises ShapeError,
 extract.py turns into exit status 3 with a message naming the function.
 """
 import re
-from rustfront import (ShapeError, Items, parse_fn_body, parse_params, parse_type, parse_expr)
+from rustfront import (ShapeError, Items, Parser, parse_fn_body, parse_params, parse_type, parse_expr, split_commas)
 
 INT_W = {"u8": 8, "u16": 16, "u32": 32, "u64": 64}
 LEAN_KEYWORDS = {"end", "from", "at", "then", "do", "have", "show", "fun", "open", "local", "let", "in", "if", "else",
@@ -102,6 +102,8 @@ class Translator:
             return a if a[1] is not None else b
         if a[0] == b[0] and a[0] in ("option", "result"):
             return (a[0], self.unify(a[1], b[1], what))
+        if a[0] == "arr" and b[0] == "arr" and a[2] == b[2]:
+            return ("arr", self.unify(a[1], b[1], what), a[2])
         if a[0] == "tuple" and b[0] == "tuple" and len(a[1]) == len(b[1]):
             return ("tuple", [self.unify(x, y, what) for x, y in zip(a[1], b[1])])
         raise ShapeError(f"{what}: type mismatch {self.show(a)} vs {self.show(b)}")
@@ -123,6 +125,9 @@ class Translator:
             return self.conv_type(ty[1], what, impl)
         if k in ("tarray", "tslice"):
             inner = self.conv_type(ty[1], what, impl)
+            if inner[0] == "int" and inner[1] != 8 and k == "tarray":
+                # `[u16; N]`: a list of numbers (only built by an array literal and handed on)
+                return ("arr", inner, self.const_eval(ty[2], what, impl))
             if inner != ("int", 8):
                 raise ShapeError(f"{what}: only byte arrays / slices are in the subset")
             if k == "tslice":
@@ -178,6 +183,8 @@ class Translator:
             return "Bool"
         if k == "bytes":
             return "List UInt8"
+        if k == "arr":
+            return "List Nat"
         if k == "str":
             return "String"
         if k == "unit":
@@ -611,7 +618,7 @@ class ExprMixin:
             for fname, fty, isref in self.struct_fields(t[1], ctx.what):
                 if fname == name and not isref:
                     return V(f"{v.lean}.{lname(name)}" if atom(v.lean) else f"({v.lean}).{lname(name)}",
-                             self.conv_type(fty, ctx.what), v.ok)
+                             self.conv_type(fty, ctx.what, t[1]), v.ok)
         if t[0] == "tuple" and name.isdigit() and int(name) < len(t[1]):
             idx = int(name)
             proj = ".2" * idx + (".1" if idx < len(t[1]) - 1 else "")
@@ -635,6 +642,14 @@ class ExprMixin:
             ln = hiv.const - lov.const
         elif hi[0] == "bin" and hi[1] == "+" and hi[2] == (lo if lo is not None else ("lit", 0, None)) and hi[3][0] == "lit":
             ln = hi[3][1]
+        elif hi[0] == "bin" and hi[1] == "+" and hi[2] == (lo if lo is not None else ("lit", 0, None)):
+            # `a..a + K` with a named constant `K`
+            try:
+                kv = self.tr(hi[3], env, ctx)
+            except ShapeError:
+                kv = None
+            if kv is not None and kv.const is not None:
+                ln = kv.const
         if ln is not None and inc:
             ln += 1
         if inc:
@@ -677,6 +692,11 @@ class ExprMixin:
 
     def tr_array(self, e, env, ctx):
         vs = [self.tr(x, env, ctx) for x in e[1]]
+        t0 = self.res(vs[0].ty) if vs else ("int", 8)
+        if t0[0] == "int" and t0[1] != 8:
+            for v in vs:
+                self.unify(v.ty, t0, f"{ctx.what}: array literal")
+            return V("[" + ", ".join(v.lean for v in vs) + "]", ("arr", t0, len(vs)), conj(*[v.ok for v in vs]))
         for v in vs:
             self.unify(v.ty, ("int", 8), f"{ctx.what}: array literal (only byte arrays are in the subset)")
         return V("[" + ", ".join(f"UInt8.ofNat {v.lean}" if atom(v.lean) else f"UInt8.ofNat {v.lean}" for v in vs) + "]",
@@ -706,7 +726,7 @@ class ExprMixin:
             if isref:
                 continue
             v = self.tr(given[fname], env, ctx)
-            ty = self.conv_type(fty, ctx.what)
+            ty = self.conv_type(fty, ctx.what, sname)
             self.unify_val(v, ty, ctx)
             parts.append(f"{lname(fname)} := {self.value(v, ctx)}")
             oks.append(v.ok)
@@ -1229,6 +1249,9 @@ class FlowMixin:
                 vname = pat[1][-1]
                 payload = variants[vname]
                 subs = pat[2] if pat[0] == "ptuple" else []
+                if sum(1 for q in subs if q[0] == "prest") == 1:
+                    k = [q[0] for q in subs].index("prest")
+                    subs = subs[:k] + [("pwild",)] * (len(payload) - (len(subs) - 1)) + subs[k + 1:]
                 if len(subs) != len(payload):
                     raise ShapeError(f"{ctx.what}: pattern {ename}::{vname} has the wrong number of fields")
                 names = []
@@ -1237,7 +1260,7 @@ class FlowMixin:
                         sp = sp[1]
                     if sp[0] == "pwild":
                         names.append("_")
-                    elif sp[0] == "pbind":
+                    elif sp[0] in ("pbind", "pbindref"):
                         self.check_local(sp[1], ctx)
                         names.append(lname(sp[1]))
                         env2[sp[1]] = ("val", lname(sp[1]), self.conv_type(parse_type(pty, ctx.what, self.items), ctx.what))
@@ -1260,7 +1283,26 @@ class FlowMixin:
     def tr_return(self, e, env, ctx):
         raise ShapeError(f"{ctx.what}: `return` in this position is outside the subset")
 
+    def matches_ast(self, e, ctx):
+        """`matches!(x, P)` / `matches!(x, P if g)` -> `match x { P [if g] => true, _ => false }`"""
+        parts = split_commas(e[2], ctx.what)
+        parts = [p for p in parts if p]
+        if len(parts) != 2:
+            raise ShapeError(f"{ctx.what}: `matches!` takes an expression and a pattern")
+        scrut = parse_expr(parts[0], ctx.what, self.items)
+        p = Parser(list(parts[1]), ctx.what, self.items)
+        pat = p.pattern()
+        guard = None
+        if p.at_id("if"):
+            p.i += 1
+            guard = p.expr()
+        if not p.done():
+            p.fail("trailing tokens in `matches!`")
+        return ("match", scrut, [(pat, guard, ("bool", True)), (("pwild",), None, ("bool", False))])
+
     def tr_macro(self, e, env, ctx):
+        if e[1] == "matches":
+            return self.tr(self.matches_ast(e, ctx), env, ctx)
         raise ShapeError(f"{ctx.what}: macro `{e[1]}!` in expression position is outside the subset")
 
     # wrapped leaves: the value of a `let` whose initialiser may `return Err(..)`
@@ -1396,7 +1438,7 @@ class StmtMixin:
                     if fname not in given:
                         raise ShapeError(f"{ctx.what}: struct literal {sname} lacks field {fname}")
                     v = self.tr(given[fname], env, ctx)
-                    fty2 = self.conv_type(fty, ctx.what)
+                    fty2 = self.conv_type(fty, ctx.what, sname)
                     self.unify(v.ty, fty2, ctx.what)
                     if isref:
                         if not re.match(r"^[A-Za-z0-9_]+$", v.lean):
@@ -1499,6 +1541,24 @@ class StmtMixin:
         if recv[0] == "index" and recv[2][0] == "range":
             rng = recv[2]
             recv = recv[1]
+        # `x.f.g.copy_from_slice(src)`: the byte-array field `g` of the struct held in field `f` of the local struct `x`
+        if rng is None and recv[0] == "field" and recv[1][0] == "field" and recv[1][1][0] == "path" and \
+                len(recv[1][1][1]) == 1 and recv[1][1][1][0] in env and env[recv[1][1][1][0]][0] == "structlocal":
+            b = env[recv[1][1][1][0]]
+            f, g = recv[1][2], recv[2]
+            if f not in b[2]:
+                raise ShapeError(f"{ctx.what}: no field {f}")
+            fl, fty = b[2][f]
+            ft = self.res(fty)
+            if ft[0] != "struct":
+                raise ShapeError(f"{ctx.what}: copy_from_slice into a field of {self.show(ft)}")
+            for gname, gty, isref in self.struct_fields(ft[1], ctx.what):
+                if gname == g and not isref:
+                    gt = self.res(self.conv_type(gty, ctx.what, ft[1]))
+                    if gt[0] != "bytes" or gt[1] is None or gt[1] != st[1]:
+                        raise ShapeError(f"{ctx.what}: copy_from_slice of {st[1]} bytes into {self.show(gt)}")
+                    return self.let_in([(fl, f"{{ {fl} with {lname(g)} := {src.lean} }}")], cont(env), src.ok)
+            raise ShapeError(f"{ctx.what}: no field {g} in {ft[1]}")
         if not (recv[0] == "path" and len(recv[1]) == 1 and recv[1][0] in env and env[recv[1][0]][0] == "val" and
                 self.res(env[recv[1][0]][2])[0] == "bytes"):
             raise ShapeError(f"{ctx.what}: copy_from_slice into something that is not a local byte array")
@@ -2190,6 +2250,75 @@ def render(T):
                          f"def {info.name}_ok{ps} : Prop :=\n  {info.okbody}\n")
     lines.append("end Sdmmc.Gen.Funs\n")
     return "\n".join(lines)
+
+
+# second pure file (Gen/FunsEnt.lean): the on-disk directory entry
+FILES2 = FILES + ["filesystem/directory.rs", "filesystem/attributes.rs"]
+FUNCTIONS2 = [
+    # C06 / C18
+    ("OnDiskDirEntry", "is_end"), ("OnDiskDirEntry", "is_valid"), ("OnDiskDirEntry", "is_lfn"),
+    ("OnDiskDirEntry", "matches"), ("OnDiskDirEntry", "lfn_contents"), ("OnDiskDirEntry", "get_entry"),
+    ("DirEntry", "serialize"), ("DirEntry", "new"),
+]
+
+LEAN_HEADER2 = '''/-!
+# Machine translation of pure Rust functions of the crate, second file: the on-disk directory entry
+
+Produced by `tools/translate.py` like `Gen/Funs.lean` (same representation, same operator table; the
+definitions of that file are used here, not repeated): `OnDiskDirEntry::{is_end, is_valid, is_lfn, matches,
+lfn_contents, get_entry}` (fat/ondiskdirentry.rs, with the `define_field!` accessors they use),
+`DirEntry::{serialize, new}` (filesystem/directory.rs), `Attributes::{create_from_fat, is_lfn, is_directory}`.
+`Props/C06Gen.lean` / `Props/C18GenEnt.lean` prove them equal to `Model/DirEntry.lean`.
+
+Added to the representation: `[u16; N]` (the thirteen code units of a long-name fragment) is `List Nat`, built
+by an array literal only; `x.name.contents.copy_from_slice(src)` on a local struct `x` replaces that field.
+-/
+'''
+
+
+def render2(T, n0, types0):
+    lines = ["import Sdmmc.Gen.Funs\n", LEAN_HEADER2, "set_option linter.unusedVariables false\n",
+             "namespace Sdmmc.Gen.FunsEnt\n", "open Sdmmc.Gen.Funs\n"]
+    full = render(T)
+    for kind, name in T.types_used:
+        if (kind, name) in types0:
+            continue
+        marker = f"/-- `struct {name}` (non-reference fields). -/" if kind == "struct" else f"/-- `enum {name}`. -/"
+        i = full.index(marker)
+        j = full.index("\n\n", i)
+        lines.append(full[i:j] + "\n")
+    for key in T.order[n0:]:
+        info = T.done[key]
+        ps = "".join(f" ({n} : {T.lean_type(t, info.name)})" for n, t in info.params)
+        rt = T.lean_type(info.ret, info.name)
+        lines.append(f"/-- {info.doc}. -/\ndef {info.name}{ps} : {rt} :=\n  {pretty(info.body)}\n")
+        if info.okbody:
+            lines.append(f"/-- No overflow, no out-of-range index, no division by zero in {info.doc}. -/\n"
+                         f"def {info.name}_ok{ps} : Prop :=\n  {info.okbody}\n")
+    lines.append("end Sdmmc.Gen.FunsEnt\n")
+    return "\n".join(lines)
+
+
+def generate2(read_src):
+    """Gen/FunsEnt.lean.  Returns (lean text, summary dict)."""
+    items = Items()
+    for f in FILES2:
+        items.scan_file(f, read_src(f))
+    T = Full(items)
+    for key in FUNCTIONS:
+        T.translate_fn(key)
+    for spec in FRAGMENTS:
+        T.translate_fragment(spec)
+    first = render(T).replace("rdByte_PLACEHOLDER", "rdByte")
+    base, _ = generate(read_src)
+    if LEAN_HEADER + first != base:
+        raise ShapeError("FunsEnt: internal: the first file is not reproduced when the two extra source files are read")
+    n0, types0 = len(T.order), list(T.types_used)
+    for key in FUNCTIONS2:
+        T.translate_fn(key)
+    text = render2(T, n0, types0).replace("rdByte_PLACEHOLDER", "rdByte")
+    summary = {("::".join(str(x) for x in k)): [T.done[k].name, T.done[k].body, T.done[k].okbody] for k in T.order[n0:]}
+    return text, summary
 
 
 def generate(read_src, functions=None, fragments=None):
